@@ -68,7 +68,7 @@ pub fn run(prop: &str, args: &Args, rep: &mut Report) {
             return;
         }
         let (cmd, hist, set, prompt) = cfgs[ci as usize];
-        let cfg = SessionCfg { cmd, hist, prompt, set, use_new: false, chunk: 0, script: vec![] };
+        let cfg = SessionCfg { cmd, hist, prompt, set, use_new: false, chunk: 0, script: vec![], pform: 0 };
         let keys = keys_for(set);
         let mut scratch = Report::new();
         let mut seen: HashSet<StateKey> = HashSet::new();
